@@ -86,6 +86,18 @@ def _runs_of(residues_obj, recs):
     return runs, ok
 
 
+def _scribble(residues):
+    """what an access hands out belongs to the caller: changing it must not change what later accesses return"""
+    import numpy as np
+    for r in residues:
+        try:
+            r.move(np.array([100.0, -50.0, 25.0]))
+            r[0].name = 'ZZ'
+            r[0].atomid = 0
+        except Exception:
+            pass
+
+
 def record(path, recs, ops, title, box):
     """Run the access history `ops` on a real SystemGro -> events"""
     from gaddlemaps.components import SystemGro
@@ -113,6 +125,7 @@ def record(path, recs, ops, title, box):
             try:
                 r = next(iters[op[1]])
                 runs, ok = _runs_of([r], recs)
+                _scribble([r])
                 ev.append({'op': 'next', 'it': op[1], 'st': 'ok', 'runs': runs, 'data_ok': ok})
             except StopIteration:
                 ev.append({'op': 'next', 'it': op[1], 'st': 'StopIteration', 'runs': [], 'data_ok': True})
@@ -120,6 +133,7 @@ def record(path, recs, ops, title, box):
             try:
                 r = s[op[1]]
                 runs, ok = _runs_of([r], recs)
+                _scribble([r])
                 ev.append({'op': 'get', 'k': op[1], 'st': 'ok', 'runs': runs, 'data_ok': ok})
             except IndexError:
                 ev.append({'op': 'get', 'k': op[1], 'st': 'IndexError', 'runs': [], 'data_ok': True})
@@ -127,6 +141,7 @@ def record(path, recs, ops, title, box):
             a, b, c = op[1:]
             rs = s[slice(None if a == NONE else a, None if b == NONE else b, None if c == NONE else c)]
             runs, ok = _runs_of(rs, recs)
+            _scribble(rs)
             ev.append({'op': 'slice', 'a': a, 'b': b, 'c': c, 'st': 'list', 'runs': runs, 'data_ok': ok})
         elif kind == 'len':
             ev.append({'op': 'len', 'n': len(s)})
